@@ -191,6 +191,9 @@ type fnOpts struct {
 	houdini  bool
 	props    []string // properties to tag sweep obligations with
 	noSafety bool
+	// parameters bound to constants: a new function checked as part of a sweep because a swept entry
+	// function calls it unconditionally with its own parameters and these constants
+	paramConst map[int]*ssa.Const
 }
 
 func (c *FnCtx) fresh(prefix string) string {
